@@ -242,7 +242,7 @@ def contention_case(draw, d):
 def _gen_choice(draw, cur, mode):
     if mode == 'current':
         return cur
-    return draw(st.sampled_from([cur, cur, cur - 1, cur + 1]))
+    return draw(st.sampled_from([cur, cur, cur - 1, cur + 1, 0]))
 
 
 def provider_write(draw, d, rp, v, g, changing=True):
@@ -273,7 +273,21 @@ def provider_write(draw, d, rp, v, g, changing=True):
         if kind == 'reshaper':
             if v < (1, 30):
                 v = (1, 38)
-            return reshape_req(d, {rp: invs}, {}, v, rp_gens={rp: g})
+            entries = {}
+            if draw(st.booleans()):
+                # re-state the allocations of consumers on this provider, so
+                # that the provider appears under inventories AND allocations
+                on_rp = sorted({c for (c, p, _k) in d.allocations if p == rp})
+                for c in on_rp[:2]:
+                    entries[c] = {(p, k): a
+                                  for (x, p, k), a in d.allocations.items()
+                                  if x == c}
+                    for (p, k) in list(entries[c]):
+                        if p == rp and k not in invs:
+                            del entries[c][(p, k)]
+                    if not entries[c]:
+                        del entries[c]
+            return reshape_req(d, {rp: invs}, entries, v, rp_gens={rp: g})
         return gen.R('PUT', '/resource_providers/%s/inventories' % rp, v,
                      {'resource_provider_generation': g, 'inventories': invs},
                      'put_inventories', [], target=rp, carried=g)
@@ -303,7 +317,7 @@ def provider_write(draw, d, rp, v, g, changing=True):
 def self_deriving(draw, d, rp, v, idx):
     mine = sorted(rc for (p, rc) in d.inventories if p == rp)
     used = {rc for (_c, p, rc) in d.allocations if p == rp}
-    kinds = ['post_inventory', 'delete_rp_traits']
+    kinds = ['post_inventory', 'delete_rp_traits', 'delete_rp']
     if mine:
         kinds += ['delete_inventory', 'put_allocations', 'post_allocations']
         if v >= (1, 5):
@@ -318,6 +332,9 @@ def self_deriving(draw, d, rp, v, idx):
     if kind == 'delete_rp_traits':
         return gen.R('DELETE', '/resource_providers/%s/traits' % rp, v, None,
                      'delete_rp_traits', [], target=rp)
+    if kind == 'delete_rp':
+        return gen.R('DELETE', '/resource_providers/' + rp, v, None,
+                     'delete_rp', [], target=rp)
     if kind == 'delete_inventory':
         free = [rc for rc in mine if rc not in used] or mine
         return gen.R('DELETE', '/resource_providers/%s/inventories/%s'
